@@ -366,6 +366,14 @@ namespace {
             }
         }
 
+        // The substitution must not be cyclic: the substituted term must not occur inside another term of the polynomial
+        // (e.g. f(x) in "f(x) = g(f(x)) + 1"), otherwise the transitive closure of the substitutions never terminates.
+        if (std::ranges::any_of(poly, [&logic, var](auto const & term) {
+                return term.var != PTRef_Undef and term.var != var and logic.contains(term.var, var);
+            })) {
+            return PTRef_Undef;
+        }
+
         Real coeff = poly.getCoeff(var);
         bool const wasOne = coeff.isOne();
         coeff.negate();
